@@ -205,6 +205,7 @@ spec fn emit(runs: Seq<(int, int)>, d: Seq<f64>, cs: int) -> Seq<Value>
     }
 }
 /// sorted, pairwise disjoint, non-empty values inside [lo, hi)
+#[verifier::opaque]
 spec fn sorted_in(o: Seq<Value>, lo: int, hi: int) -> bool {
     &&& forall|i: int| 0 <= i < o.len() ==> lo <= (#[trigger] o[i]).start < o[i].end <= hi
     &&& forall|i: int, j: int| 0 <= i < j < o.len() ==> (#[trigger] o[i]).end <= (#[trigger] o[j]).start
@@ -223,7 +224,7 @@ proof fn lemma_emit_push(runs: Seq<(int, int)>, r: (int, int), d: Seq<f64>, cs: 
         emit(runs.push(r), d, cs) == (if !feq(d[r.0], 0.0f64) { emit(runs, d, cs).push(run_value(r, d, cs)) } else { emit(runs, d, cs) }),
         sorted_in(emit(runs.push(r), d, cs), cs, cs + r.1),
 {
-    reveal_with_fuel(emit, 1);
+    reveal_with_fuel(emit, 1); reveal(sorted_in);
     assert(runs.push(r).drop_last() =~= runs);
     let o = emit(runs, d, cs);
     let o2 = emit(runs.push(r), d, cs);
@@ -274,7 +275,7 @@ proof fn lemma_rle_init(d: Seq<f64>, cs: int, n: int)
     requires 0 <= n <= DATA_SIZE, d.len() == DATA_SIZE, 0 <= cs, cs + DATA_SIZE as int <= u32::MAX as int,
     ensures rle_deep(Seq::<(int, int)>::empty(), Seq::<Value>::empty(), d, cs, n, 0, 0),
 {
-    reveal(rle_deep);
+    reveal(rle_deep); reveal(sorted_in);
     lemma_emit_empty(d, cs);
 }
 proof fn lemma_rle_first(runs: Seq<(int, int)>, o: Seq<Value>, d: Seq<f64>, cs: int, n: int)
@@ -488,6 +489,7 @@ proof fn lemma_sorted_concat(a: Seq<Value>, b: Seq<Value>, lo: int, mid: int, hi
     requires sorted_in(a, lo, mid), sorted_in(b, mid, hi), lo <= mid <= hi,
     ensures sorted_in(a + b, lo, hi),
 {
+    reveal(sorted_in);
     let c = a + b;
     assert forall|i: int| 0 <= i < c.len() implies lo <= (#[trigger] c[i]).start < c[i].end <= hi by {
         if i < a.len() { assert(c[i] == a[i]); } else { assert(c[i] == b[i - a.len()]); }
@@ -522,7 +524,7 @@ proof fn lemma_step_stream(h: Hist, lv: Option<Value>, w: Win)
         lv is Some ==> lv->Some_0.start < lv->Some_0.end && lv->Some_0.end <= w.cs,
         w.out.len() > 0 ==> w.cs <= w.out[0].start,
 {
-    reveal(stream_sorted);
+    reveal(stream_sorted); reveal(sorted_in); reveal(queue_sorted);
     lemma_flat_push(h.wins, w);
     lemma_sorted_concat(flat(h.wins), w.out, 0, w.cs, w.cs + DATA_SIZE as int);
     assert(h.emitted + (opt_v(lv) + w.out) =~= (h.emitted + opt_v(lv)) + w.out);
@@ -626,6 +628,7 @@ pub fn merge_into(one: Value, two: Value) -> (r: (Value, Option<Value>, Option<V
         r.0.start < r.0.end,
 { unimplemented!() }
 /// sorted, disjoint, non-empty
+#[verifier::opaque]
 spec fn queue_sorted(o: Seq<Value>) -> bool {
     &&& forall|i: int| 0 <= i < o.len() ==> (#[trigger] o[i]).start < o[i].end
     &&& forall|i: int, j: int| 0 <= i < j < o.len() ==> (#[trigger] o[i]).end <= (#[trigger] o[j]).start
@@ -636,3 +639,63 @@ proof fn lemma_total_len_suffix_bound(pre: Seq<Seq<Result<Value, MergeError>>>, 
     requires total_len(pre) <= MAXHALF, ms <= total_len(pre),
     ensures ms <= usize::MAX / 2,
 { }
+
+/// what insert_into_queue needs of a sorted queue: its first value is non-empty and ends no later than its last
+proof fn lemma_queue_front_back(q: Seq<Value>)
+    requires queue_sorted(q), q.len() > 0,
+    ensures q[0].start < q[0].end <= q.last().end,
+{
+    reveal(queue_sorted);
+    let _ = q[0]; let _ = q[q.len() - 1];
+}
+
+// ---------------- per-base reading of the window sums (C15 "the value at every base is the sum") ----------------
+/// the sum cell `b` holds after the values `s` (in this order): one `+ value` for each value covering base b
+spec fn cell_sum(x: f64, s: Seq<Value>, b: int) -> f64
+    decreases s.len()
+{
+    if s.len() == 0 { x } else {
+        let y = cell_sum(x, s.drop_last(), b);
+        if covers(s.last(), b) { y.add_spec(f64_of(s.last().value)) } else { y }
+    }
+}
+proof fn lemma_cell_is_ordered_sum(d: Seq<f64>, s: Seq<Value>, cs: int, c: int)
+    requires 0 <= c < d.len(),
+    ensures
+        add_vals(d, s, cs).len() == d.len(),
+        add_vals(d, s, cs)[c] == cell_sum(d[c], s, cs + c), [[L: spec/cell_is_ordered_sum_of_the_values_covering_its_base]]
+    decreases s.len(),
+{
+    reveal_with_fuel(add_vals, 1);
+    if s.len() > 0 {
+        lemma_cell_is_ordered_sum(d, s.drop_last(), cs, c);
+    }
+}
+/// ... over the sections in order
+spec fn win_cell(pre: Seq<Seq<Result<Value, MergeError>>>, ks: Seq<int>, i: int, x: f64, b: int) -> f64
+    decreases i
+{
+    if i <= 0 { x } else { cell_sum(win_cell(pre, ks, i - 1, x, b), taken(pre[i - 1], ks[i - 1]), b) }
+}
+proof fn lemma_win_cell(pre: Seq<Seq<Result<Value, MergeError>>>, ks: Seq<int>, i: int, d0: Seq<f64>, cs: int, c: int)
+    requires 0 <= c < d0.len(), 0 <= i,
+    ensures
+        win_data(pre, ks, i, d0, cs).len() == d0.len(),
+        win_data(pre, ks, i, d0, cs)[c] == win_cell(pre, ks, i, d0[c], cs + c), [[L: spec/window_cell_is_ordered_sum_over_sections_in_order]]
+    decreases i,
+{
+    reveal_with_fuel(win_data, 1);
+    if i > 0 {
+        lemma_win_cell(pre, ks, i - 1, d0, cs, c);
+        lemma_cell_is_ordered_sum(win_data(pre, ks, i - 1, d0, cs), taken(pre[i - 1], ks[i - 1]), cs, c);
+    }
+}
+/// values a section does not take in a window have no base in it: those used up earlier ended before the
+/// window start (sec_ok), those behind the stop value start at or after the window end
+proof fn lemma_untaken_do_not_cover(p: Seq<Result<Value, MergeError>>, cs: int, k: int, wend: int, j: int, b: int)
+    requires sec_ok(p, cs), is_stop(p, k, wend), !stop_is_err(p, k), n_taken(p, k) <= j < p.len(), p[j] is Ok, b < wend,
+    ensures !covers(p[j]->Ok_0, b), [[L: spec/values_left_pending_have_no_base_in_the_window]]
+{
+    reveal(sec_ok);
+    let _ = p[k];
+}
